@@ -211,7 +211,11 @@ def run(c):
             "From RGW Require Import Gen_C03." if gen_ok else
             "Definition nodeTextInRange (from to : Z) (src : bytes) : outcome bool := Ok ((0 <=? from)%Z && (from <? len src)%Z && ((0 <=? to)%Z && (to <=? len src)%Z)).",
             "Import ListNotations. Local Open Scope Z_scope.",
-            "Definition srcs : list bytes := [%s]." % ";\n".join(coq_bytes(x) for x in srcs),
+            # big list literals overflow coqc's parser stack: the files are given in chunks
+            "\n".join("Definition src_%d_%d : bytes := %s." % (fi, k // 4000, coq_bytes(x[k:k + 4000])) for fi, x in enumerate(srcs)
+                      for k in range(0, max(len(x), 1), 4000)),
+            "Definition srcs : list bytes := [%s]." % ";\n".join(
+                "(" + " ++ ".join("src_%d_%d" % (fi, k // 4000) for k in range(0, max(len(x), 1), 4000)) + ")" for fi, x in enumerate(srcs)),
             "Definition rules : list crule := [%s]." % ";\n".join(coq_rule(r) for r in rules),
             "Definition rep_eqb (m : option mreport) (o : option (Z * Z * bytes * bool * Z * Z * bytes * Z)) : bool :=",
             "  match m, o with None, None => true | Some r, Some (pos, en, msg, hs, sf, st, sg, ln) =>",
